@@ -118,6 +118,9 @@ type shape struct {
 	BufSize   int
 	Pick      int // index of the protocol the server accepts
 	LF        bool
+	// SplitExt: the offers go out in two Sec-WebSocket-Extensions header lines (first offer / the rest)
+	// instead of one list; the selection result is the same.
+	SplitExt bool
 }
 
 func drawShape(t *rapid.T) shape {
@@ -137,6 +140,7 @@ func drawShape(t *rapid.T) shape {
 	}
 	s.BufSize = rapid.SampledFrom([]int{0, 128, 256, 512, 4096}).Draw(t, "bufsize")
 	s.Pick = rapid.IntRange(0, np-1).Draw(t, "pick")
+	s.SplitExt = ne >= 2 && rapid.Bool().Draw(t, "splitext")
 	return s
 }
 
@@ -196,6 +200,12 @@ func (s shape) request(g int, deflate string) []byte {
 	ext := s.extHeader(g)
 	if deflate != "" {
 		ext = deflate + ", " + ext
+	}
+	if s.SplitExt {
+		if i := strings.Index(s.extHeader(g), ", "); i >= 0 {
+			pre := len(ext) - len(s.extHeader(g))
+			ext = ext[:pre+i] + "\r\nSec-WebSocket-Extensions: " + ext[pre+i+2:]
+		}
 	}
 	return []byte("GET /" + word(g, 41, 5) + " HTTP/1.1\r\nHost: " + word(g, 42, 9) + "\r\nUpgrade: websocket\r\nConnection: Upgrade\r\n" +
 		"Sec-WebSocket-Version: 13\r\nSec-WebSocket-Key: " + key + "\r\n" +
